@@ -160,10 +160,34 @@ def ref_driver_events(case, obs):
                 pending.append(ev)
                 if slot is not None:
                     keys[slot] = ev
+        elif c[0] == "ss" and "ss-oracle" in case.get("tags", ()):
+            # a source event (EventSource): one handler invocation per accepting connection to a model
+            _, d, src, v, slot, per = c
+            when = d[1] if d[0] == "a" else prev + d[1]
+            want = 2 if per == 0 else (1 if when <= prev else 0)
+            if res != "sched:%d" % want:
+                problems.append("cmd %d: schedule(source event, deadline %d at time %d, period %s) returned %s, expected sched:%d" % (j, when, prev, per, res, want))
+            if res == "sched:0":
+                conns = [cn for cn in case["sources"][src] if cn[2][0] == "m" and
+                         (cn[0] == "all" or (cn[0] == "even" and v % 2 == 0) or (isinstance(cn[0], tuple) and v < cn[0][1]))]
+                first = True
+                for cn in conns:
+                    ev = {"v": v + cn[1], "t": when, "per": per, "stamp": stamp, "m": cn[2][1], "i": cn[2][2], "cancelled": False}
+                    stamp += 1
+                    pending.append(ev)
+                    if slot is not None:
+                        keys.setdefault(("grp", slot), []).append(ev) if not first else keys.__setitem__(("grp", slot), [ev])
+                    first = False
+                if slot is not None:
+                    keys[slot] = {"group": keys.get(("grp", slot), [])}
         elif c[0] == "cn":
             ev = keys.pop(c[1], None)
             if ev is not None:
-                ev["cancelled"] = True
+                if "group" in ev:
+                    for e2 in ev["group"]:
+                        e2["cancelled"] = True
+                else:
+                    ev["cancelled"] = True
         elif c[0] in ("st", "su") and alive:
             if kind(res) in ("panic", "norecip", "dead", "loss", "timeout", "term"):
                 alive = False
@@ -204,6 +228,10 @@ def o_driver_events(case, obs):
     if not ok:
         return None
     driver_vals = set(c[4] for c in case["cmds"] if c[0] == "se")
+    if "ss-oracle" in case.get("tags", ()):
+        for c in case["cmds"]:
+            if c[0] == "ss":
+                driver_vals |= set(c[3] + cn[1] for cn in case["sources"][c[2]])
     pe_vals = set(c[3] for c in case["cmds"] if c[0] == "pe")
     for j, c in enumerate(case["cmds"]):
         res, t, es = obs[j + 1]
@@ -602,4 +630,24 @@ def o_triangle(case, obs):
     roots_in_order = [v for v in case.get("meta", {}).get("roots", []) if v in set(a_vals)]
     if case.get("meta", {}).get("sequential_roots") and a_vals != roots_in_order:
         return "messages sent to B by one sender in the order %s were processed in the order %s" % (roots_in_order, a_vals)
+    return None
+
+
+def o_burst_order(case, obs):
+    """C07, origin = a model (benches of simgen.gen_multi_origin): the events that one handler invocation
+    scheduled for the same time and the same target (payloads base+100, base+200, ...) are processed in
+    that order, whatever the other origins do at that time."""
+    bases = case.get("meta", {}).get("bases", {})
+    for mi, b in bases.items():
+        seq = []
+        for res, t, es in obs[1:]:
+            for e in es:
+                f = e.split(":")
+                if f[0] == "H" and int(f[1]) == mi and int(f[2]) == 0 and (int(f[3]) - b) % 100 == 0 and 0 < int(f[3]) - b <= 500:
+                    seq.append((int(f[3]) - b) // 100)
+        n = len(case["models"][mi]["handlers"][1])
+        if seq and seq != sorted(seq):
+            return "model %d processed the burst scheduled by one handler invocation in order %s (scheduling order is 1..%d)" % (mi, seq, n)
+        if seq and sorted(seq) != list(range(1, n + 1)) and all(kind(o[0]) == "ok" for o in obs):
+            return "model %d processed burst elements %s, scheduled 1..%d" % (mi, seq, n)
     return None
